@@ -268,6 +268,9 @@ pub fn finish(
         }
     }
 
+    if std::env::var_os("RTV_ALL_VIOLATIONS").is_some() {
+        for v in &fresh { eprintln!("ALL {} :: {}", v.fingerprint, v.what); }
+    }
     // Replay files for fresh violations.
     let replay_dir = verif_dir.join("replays").join(&ctx.id);
     let mut replay_paths = Vec::new();
